@@ -416,6 +416,8 @@ class Trie(object):
         if not include_space:
             tokens = [t for t in tokens if t.string.strip()]
         tokens = filter_overlapping(tokens)
+        if include_unmatched:
+            tokens = add_uncovered(string, tokens)
         return tokens
 
 
@@ -493,6 +495,30 @@ def filter_overlapping(tokens):
             # place at index i and must be checked against its own followers
             i += 1
     return tokens
+
+
+def add_uncovered(string, tokens):
+    """
+    Return a new list of Tokens sorted by position from a ``tokens`` list of
+    non-overlapping Tokens sorted by position, with an extra unmatched Token for
+    each word of ``string`` that is not covered by any of the ``tokens``: these
+    are the words of discarded overlapping matches that are outside of the
+    match that was kept.
+    """
+    uncovered = []
+    end_pos = -1
+    i = 0
+    for word in get_tokens(string, lower=False):
+        end_pos += len(word)
+        start_pos = end_pos - len(word) + 1
+        if not word.strip():
+            continue
+        while i < len(tokens) and tokens[i].end < start_pos:
+            i += 1
+        if i < len(tokens) and tokens[i].start <= start_pos:
+            continue
+        uncovered.append(Token(start_pos, end_pos, word, None))
+    return Token.sort(tokens + uncovered)
 
 
 class Token(object):
